@@ -26,12 +26,24 @@ FT = 'prysm.fttools.'
 SHIFTS = [(True, True), (True, False), (False, True), (False, False)]
 
 
-def ctx(dom, sh=(True, True)):
-    """sh = (x shifted?, y shifted?): a requested shift is a non-zero symbol, no shift is the literal 0."""
-    dom.nonzero = {'sx', 'sy'}
-    return {'ary': dom.array('ary', 'n0', 'n1'), 'Q': Tup([dom.sym('Q0'), dom.sym('Q1')]),
-            'samples_out': Tup([dom.length('M0'), dom.length('M1')]),
-            'shift': Tup([dom.sym('sx') if sh[0] else Const(0), dom.sym('sy') if sh[1] else Const(0)])}
+def ctx(dom, sh=(True, True), alias=None):
+    """sh = (x shifted?, y shifted?): a requested shift is a non-zero symbol, no shift is the literal 0.
+    alias maps the canonical names (n0, n1, M0, M1, Q0, Q1, sx, sy) to the symbols actually used, so that a context can
+    identify quantities of the two axes (a square problem)."""
+    a = lambda k: (alias or {}).get(k, k)
+    dom.nonzero = {a('sx'), a('sy')}
+    return {'ary': dom.array('ary', a('n0'), a('n1')), 'Q': Tup([dom.sym(a('Q0')), dom.sym(a('Q1'))]),
+            'samples_out': Tup([dom.length(a('M0')), dom.length(a('M1'))]),
+            'shift': Tup([dom.sym(a('sx')) if sh[0] else Const(0), dom.sym(a('sy')) if sh[1] else Const(0)])}
+
+
+watch_coincidences = K.watch_coincidences
+
+
+SQUARE = [
+    ('square lengths and shifts, per-axis Q', {'n1': 'n0', 'M1': 'M0', 'sx': 'sy'}),
+    ('square in everything', {'n1': 'n0', 'M1': 'M0', 'sx': 'sy', 'Q1': 'Q0'}),
+]
 
 
 def shift_taken(p, i):
@@ -80,17 +92,32 @@ def czt_rules(run, db):
     for par in parity_classes(['n0', 'n1', 'M0', 'M1']):
         it, dom = K.mk(db, par)
         mk = K.executor(db, it, 'ChirpZTransformExecutor')
+        watch_coincidences(it, dom)
         for sh in SHIFTS:
             res = [p for p in it.run(f, kwargs=lambda: ctx(dom, sh), self_obj=mk) if p.outcome == 'return']
+            res = [p for p in res if not any(e['kind'] == 'coincidence' for e in p.events)]
             if len(res) != 1:
                 raise AnalysisError('czt2: expected one path per shift context, got %d' % len(res))
             czt_path(run, f, dom, res[0], par, sh)
+    # square problems: quantities of the two axes identified (a shortcut taken "when the axes agree" is judged here)
+    for label_, alias in SQUARE:
+        for par in parity_classes(['n0', 'M0']):
+            it, dom = K.mk(db, par)
+            watch_coincidences(it, dom)
+            mk = K.executor(db, it, 'ChirpZTransformExecutor')
+            for sh in ((True, True), (False, False)):
+                res = [p for p in it.run(f, kwargs=lambda: ctx(dom, sh, alias), self_obj=mk) if p.outcome == 'return']
+                res = [p for p in res if not any(e['kind'] == 'coincidence' for e in p.events)]
+                if len(res) != 1:
+                    raise AnalysisError('czt2 (%s): expected one path, got %d' % (label_, len(res)))
+                czt_path(run, f, dom, res[0], dict(par, n1=par['n0'], M1=par['M0']), sh, tag='[%s] ' % label_, alias=alias)
 
 
-def czt_path(run, f, dom, p, par, sh, alpha_of=None, tag=''):
+def czt_path(run, f, dom, p, par, sh, alpha_of=None, tag='', alias=None):
     R = dom.R
+    al = lambda k: (alias or {}).get(k, k)
     pre, filt, post, ffts = K.czt_events(dom, p)
-    lens = {k: dom.length(k) for k in ('n0', 'n1', 'M0', 'M1')}
+    lens = {k: dom.length(al(k)) for k in ('n0', 'n1', 'M0', 'M1')}
     byaxis = {}
     for group, nm in ((pre, 'pre-chirp'), (filt, 'filter'), (post, 'post-chirp')):
         if len(group) != 2:
@@ -110,11 +137,11 @@ def czt_path(run, f, dom, p, par, sh, alpha_of=None, tag=''):
     for ax in (0, 1):
         N, M = lens['n%d' % ax], lens['M%d' % ax]
         if alpha_of is None:
-            alpha = 1 / (K.R_(dom, N) * Rat(R.atom('Q%d' % ax)))
+            alpha = 1 / (K.R_(dom, N) * Rat(R.atom(al('Q%d' % ax))))
         else:
             alpha = alpha_of(ax)
         taken = sh[1] if ax == 0 else sh[0]
-        shiftv = dom.sym('sy' if ax == 0 else 'sx') if taken else Const(0)
+        shiftv = dom.sym(al('sy' if ax == 0 else 'sx')) if taken else Const(0)
         Kax = s.items[ax]
         want_len = dom.func_atom('next_fast_len', [Sym(K.R_(dom, N) + K.R_(dom, M) - 1)])
         run.check(dom.rat(Kax) is not None and K.R_(dom, Kax) == want_len.r, 'C01.axis', f.qual, 'fft size axis %d' % ax,
@@ -329,6 +356,14 @@ def fresh_rules(run, db, rule='C01.cache'):
     hits = memo_inplace(db, mods)
     for fi, st, callee in hits:
         run.finding(rule, fi.qual, norm_stmt(st), 'in-place operation on the result of the memoised function %s: every later call that receives the same cached array sees the modification (results depend on call history)' % callee.qual, fi.loc(st))
+    from .purity import sibling_alias_mutations
+    nsib = 0
+    for q in ('prysm.fttools.MatrixDFTExecutor._setup_bases', 'prysm.fttools.ChirpZTransformExecutor._setup_bases', 'prysm.fttools._prepare_czt_basis'):
+        fi = db.func(q)
+        nsib += 1
+        for st, w, o in sibling_alias_mutations(fi):
+            run.finding(rule, fi.qual, norm_stmt(st), '`%s` updates `%s` in place, but `%s` may be the very same array as `%s` (bound by a plain name copy), which is used afterwards: '
+                        'when that happens (e.g. a square plane) the shift of one axis is applied to the other axis as well' % (norm_stmt(st), w, w, o), fi.loc(st))
     from .purity import memo_completeness
     for fi, st, memo, missing in memo_completeness(db, mods):
         run.check(not missing, rule, fi.qual, 'memo %s' % memo, 'module-level memo %s is keyed by every input its fill reads' % memo,
@@ -430,6 +465,12 @@ def check(run, db, tier):
     run.group(iczt_rule, run, db)
     run.group(origin_rules, run, db)
     run.group(dispatch_rules, run, db)
+    run.rule('C01.fixed', 'focus/unfocus_fixed_sampling hand the same geometry (per-axis Q, shift in output samples along the documented axis) to both engines (shared with C05.axisQ)')
+    from . import fixedsampling as FS
+    qp = [dict(zip(['n0', 'n1', 'M0', 'M1'], b)) for b in ((0, 0, 0, 0), (1, 1, 1, 1))]
+    run.group(FS.run_fixed, run, db, 'C01.fixed', 'focus_fixed_sampling', -1, None if tier == 'thorough' else qp)
+    run.group(FS.run_fixed, run, db, 'C01.fixed', 'unfocus_fixed_sampling', +1, None if tier == 'thorough' else qp)
+    run.require_instances('C01.fixed', 100)
     run.require_instances('C01.kernel', 2 * 4 * 2 * 4)
     run.require_instances('C01.chirp', 16 * 4 * 2 * 8)
     run.require_instances('C01.cache', 12)
